@@ -156,6 +156,14 @@ class Ops:
         s = io.StringIO()
         fa.json_writer(s, self.REC, [REC1, REC2])
         self.json_rec = s.getvalue()
+        # many distinct record schemas (more than any per-schema table is likely to hold)
+        self.MANY = [fa.parse_schema({"type": "record", "name": "M%d" % i, "namespace": "c18.many", "fields": [
+            {"name": "a", "type": "int"}, {"name": "b", "type": "string", "default": "x"}]}) for i in range(80)]
+
+    def _swo(self, schema, d, **kw):
+        b = io.BytesIO()
+        self.fa.schemaless_writer(b, schema, d, **kw)
+        return b.getvalue()
 
     def _sw(self, schema, d):
         b = io.BytesIO()
@@ -244,6 +252,8 @@ class Ops:
             "validate_opt_allow_default": lambda: fa.validate(OPT2, self.REC, raise_errors=False, strict_allow_default=True),
             "validate_tuple_hint": lambda: fa.validate(TUP1, self.REC, raise_errors=False),
             "validate_tuple_plain": lambda: fa.validate(TUP1, self.REC, raise_errors=False, disable_tuple_notation=True),
+            "swrite_strict_many": lambda: [self._swo(S, {"a": i, "b": "y"}, strict=True) for i, S in enumerate(self.MANY)],
+            "swrite_allow_default_many": lambda: [self._swo(S, {"a": i}, strict_allow_default=True) for i, S in reversed(list(enumerate(self.MANY)))],
             "parse_raw": lambda: strip(fa.parse_schema(copy.deepcopy(RAW_REC))),
             "parse_raw2": lambda: strip(fa.parse_schema(copy.deepcopy(RAW_REC2))),
             "pcf_rec": lambda: self.pcf(self.REC),
@@ -321,6 +331,9 @@ def run_shard(spec):
         rounds = 0
         while _time.time() < t_end and not sh.violations:
             picks = [rng.choice(names) for _ in range(rng.choice([2, 4, 8]))]
+            if rounds < 3:
+                # the first rounds: strict-mode writes over many distinct record schemas in every thread
+                picks = [("swrite_strict_many", "swrite_allow_default_many")[k % 2] for k in range(4)]
             outs = [None] * len(picks)
             gate = threading.Barrier(len(picks))
 
@@ -487,7 +500,8 @@ def run_shard(spec):
                    ("swrite_all_logical", "swrite_log"), ("expand_parsed", "expand_parsed"), ("sread_all_logical", "sread_log"),
                    ("validate_opt_loose", "validate_opt_strict"), ("validate_opt_strict", "validate_opt_loose"),
                    ("validate_tuple_hint", "validate_tuple_plain"), ("validate_tuple_plain", "validate_tuple_hint"),
-                   ("validate_opt_allow_default", "validate_opt_strict"), ("validate_opt_strict", "validate_tuple_plain")]
+                   ("validate_opt_allow_default", "validate_opt_strict"), ("validate_opt_strict", "validate_tuple_plain"),
+                   ("swrite_strict_many", "swrite_allow_default_many")]
     all_pairs = [(a, b) for a in names for b in names]
     rng.shuffle(all_pairs)
     mine = [p for i, p in enumerate(fixed_pairs) if i % SHARDS == spec["shard"]] + all_pairs[: PAIRS[tier]]
